@@ -125,7 +125,11 @@ func (wal *BaseWAL) OnStart() error {
 	size, err := wal.group.Head.Size()
 	if err != nil {
 		return err
-	} else if size == 0 {
+	} else if size == 0 && wal.group.MaxIndex() == 0 {
+		// Only a brand-new WAL starts with #ENDHEIGHT 0. An empty head next to
+		// rotated files (restart right after a rotation) must not get another
+		// one: replay of the initial height would start from it and skip
+		// everything the rotated files hold.
 		if err := wal.WriteSync(EndHeightMessage{0}); err != nil {
 			return err
 		}
